@@ -47,6 +47,7 @@ structure Tables where
   ptrValueDistinct : Bool
   unionAtMember : Bool
   impliedSchemaUnvalidated : Bool
+  dupDirectiveInlineAccepted : Bool
   reflectOptionalRefused : Bool
   eventVarsEmpty : Bool
   symbolBaseEnum : Bool
